@@ -19,11 +19,7 @@ TRUSTED = [
     "that toposort_all(_make_prec_graph) enumerates exactly those is C19",
 ]
 ASSUMPTIONS = ["coherent cost vectors; leaf syntenies non-empty with distinct families; prescribed root order is a common supersequence"]
-OPEN = [
-    "end-to-end optimality (C02_ext_optimal, C02_base_optimal, C02_full, spfs = exactly the optimal valid set) is proved "
-    "for pre = none; with a PRESCRIBED root order only the oracle lower bound (C02_oracle_le_prescribed) and the "
-    "mask-level theorems of C02Dp are proved",
-]
+OPEN = []  # prescribed root orders (incl. strict supersequences) end to end: Properties/C02Pre.lean
 
 CORPUS = [
     # fixed: F-SPFS-SLOSS0
